@@ -215,3 +215,240 @@ package stick
 //@   requires v != nil
 //@ func stick.(*state).walkForNode$1
 //@   implements functype:stick.Iteratee
+
+// ---------------------------------------------------------------------------------------
+// Layer X — executor state (exec.go)
+//
+// xinv: the execution state is usable — environment, scope stack with at least the caller's context,
+// a writer, the macro tables and at least one block table.
+// imported macro sets hold macro definitions that wrap a macro node
+//@ mapinv map[string]macroDef nonnil
+// cbOK (assumption A9 on the environment handed to Execute): registered callbacks are not nil.
+//@ opaque pred cbOK(e *Env) = forall k :: (mdom("map[string]Filter", e.Filters, k) ==> mval("map[string]Filter", e.Filters, k) != nil) && (mdom("map[string]Func", e.Functions, k) ==> mval("map[string]Func", e.Functions, k) != nil) && (mdom("map[string]Test", e.Tests, k) ==> mval("map[string]Test", e.Tests, k) != nil)
+//@ pred xinv(s *state) = s.env != nil && cbOK(s.env) && s.env.Loader != nil && s.scope != nil && scopesOK(s.scope) && s.out != nil && s.macros != nil && s.localMacros != nil && len(s.blocks) >= 1 && s.meta != nil
+// xsame: what every walk*/eval* method leaves as it found it, on every path (C07 balance, C09/C11 name and
+// current block): the scope stack is the same stack with the same maps in place.
+//@ pred stackOf(s *state) = s.scope.scopes
+
+//@ func stick.(*state).walk
+//@   requires node: node != nil
+//@   requires xinv(s)
+//@   ensures inv: xinv(s)
+//@   ensures out: err == nil ==> s.out == old(s.out)
+//@   ensures scope: s.scope == old(s.scope) && len(s.scope.scopes) == old(len(s.scope.scopes)) && (forall i trig :: 0 <= i && i < len(s.scope.scopes) ==> s.scope.scopes[i] == old(s.scope.scopes[i]))
+//@   ensures name: s.name == old(s.name) && s.current == old(s.current) && s.env == old(s.env)
+//@   ensures blocks: len(s.blocks) >= old(len(s.blocks))
+//@   ensures others: forall p trig :: allocated(p) && p != old(s.scope) ==> fld("stick.scopeStack", "scopes", p) == old(fld("stick.scopeStack", "scopes", p))
+// A11 (trusted, not proved): states are separate — executing on one state does not modify the list of
+// scope maps of another state's scope stack (ownership of backing arrays is not modelled).
+//@   trusts sep: forall p, i :: allocated(p) && p != old(s.scope) && 0 <= i && i < old(len(fld("stick.scopeStack", "scopes", p))) ==> fld("stick.scopeStack", "scopes", p)[i] == old(fld("stick.scopeStack", "scopes", p)[i])
+//@   loop 1 invariant frame: xinv(s) && s.scope == old(s.scope) && len(s.scope.scopes) == old(len(s.scope.scopes)) && (forall i trig :: 0 <= i && i < len(s.scope.scopes) ==> s.scope.scopes[i] == old(s.scope.scopes[i])) && s.name == old(s.name) && s.current == old(s.current) && s.env == old(s.env) && len(s.blocks) >= old(len(s.blocks)) && (forall p trig :: allocated(p) && p != old(s.scope) ==> fld("stick.scopeStack", "scopes", p) == old(fld("stick.scopeStack", "scopes", p))) && s.out == old(s.out)
+//@   loop 2 invariant frame: xinv(s) && s.scope == old(s.scope) && len(s.scope.scopes) == old(len(s.scope.scopes)) && (forall i trig :: 0 <= i && i < len(s.scope.scopes) ==> s.scope.scopes[i] == old(s.scope.scopes[i])) && s.name == old(s.name) && s.current == old(s.current) && s.env == old(s.env) && len(s.blocks) >= old(len(s.blocks)) && (forall p trig :: allocated(p) && p != old(s.scope) ==> fld("stick.scopeStack", "scopes", p) == old(fld("stick.scopeStack", "scopes", p))) && s.out == old(s.out)
+
+//@ func stick.(*state).walkChild
+//@   requires xinv(s)
+//@   ensures inv: xinv(s)
+//@   ensures out: err == nil ==> s.out == old(s.out)
+//@   ensures scope: s.scope == old(s.scope) && len(s.scope.scopes) == old(len(s.scope.scopes)) && (forall i trig :: 0 <= i && i < len(s.scope.scopes) ==> s.scope.scopes[i] == old(s.scope.scopes[i]))
+//@   ensures name: s.name == old(s.name) && s.current == old(s.current) && s.env == old(s.env)
+//@   ensures blocks: len(s.blocks) >= old(len(s.blocks))
+//@   ensures others: forall p trig :: allocated(p) && p != old(s.scope) ==> fld("stick.scopeStack", "scopes", p) == old(fld("stick.scopeStack", "scopes", p))
+// A11 (trusted, not proved): states are separate — executing on one state does not modify the list of
+// scope maps of another state's scope stack (ownership of backing arrays is not modelled).
+//@   trusts sep: forall p, i :: allocated(p) && p != old(s.scope) && 0 <= i && i < old(len(fld("stick.scopeStack", "scopes", p))) ==> fld("stick.scopeStack", "scopes", p)[i] == old(fld("stick.scopeStack", "scopes", p)[i])
+//@   loop 1 invariant frame: xinv(s) && s.scope == old(s.scope) && len(s.scope.scopes) == old(len(s.scope.scopes)) && (forall i trig :: 0 <= i && i < len(s.scope.scopes) ==> s.scope.scopes[i] == old(s.scope.scopes[i])) && s.name == old(s.name) && s.current == old(s.current) && s.env == old(s.env) && len(s.blocks) >= old(len(s.blocks)) && (forall p trig :: allocated(p) && p != old(s.scope) ==> fld("stick.scopeStack", "scopes", p) == old(fld("stick.scopeStack", "scopes", p))) && s.out == old(s.out)
+
+//@ func stick.(*state).walkForNode
+// Iterate and the per-element closure are expanded here, so that the loop over the elements is verified
+// with this function's frame invariants (scope balance per iteration: C07) next to Iterate's own.
+//@   inlines stick.Iterate
+//@   loop stick.Iterate:1 invariant frame: xinv(s) && s.scope == old(s.scope) && len(s.scope.scopes) == old(len(s.scope.scopes)) && (forall i trig :: 0 <= i && i < len(s.scope.scopes) ==> s.scope.scopes[i] == old(s.scope.scopes[i])) && s.name == old(s.name) && s.current == old(s.current) && s.env == old(s.env) && len(s.blocks) >= old(len(s.blocks)) && (forall p trig :: allocated(p) && p != old(s.scope) ==> fld("stick.scopeStack", "scopes", p) == old(fld("stick.scopeStack", "scopes", p))) && s.out == old(s.out)
+//@   loop stick.Iterate:2 invariant frame: xinv(s) && s.scope == old(s.scope) && len(s.scope.scopes) == old(len(s.scope.scopes)) && (forall i trig :: 0 <= i && i < len(s.scope.scopes) ==> s.scope.scopes[i] == old(s.scope.scopes[i])) && s.name == old(s.name) && s.current == old(s.current) && s.env == old(s.env) && len(s.blocks) >= old(len(s.blocks)) && (forall p trig :: allocated(p) && p != old(s.scope) ==> fld("stick.scopeStack", "scopes", p) == old(fld("stick.scopeStack", "scopes", p))) && s.out == old(s.out)
+//@   requires xinv(s)
+//@   ensures inv: xinv(s)
+//@   ensures out: err == nil ==> s.out == old(s.out)
+//@   ensures scope: s.scope == old(s.scope) && len(s.scope.scopes) == old(len(s.scope.scopes)) && (forall i trig :: 0 <= i && i < len(s.scope.scopes) ==> s.scope.scopes[i] == old(s.scope.scopes[i]))
+//@   ensures name: s.name == old(s.name) && s.current == old(s.current) && s.env == old(s.env)
+//@   ensures blocks: len(s.blocks) >= old(len(s.blocks))
+//@   ensures others: forall p trig :: allocated(p) && p != old(s.scope) ==> fld("stick.scopeStack", "scopes", p) == old(fld("stick.scopeStack", "scopes", p))
+// A11 (trusted, not proved): states are separate — executing on one state does not modify the list of
+// scope maps of another state's scope stack (ownership of backing arrays is not modelled).
+//@   trusts sep: forall p, i :: allocated(p) && p != old(s.scope) && 0 <= i && i < old(len(fld("stick.scopeStack", "scopes", p))) ==> fld("stick.scopeStack", "scopes", p)[i] == old(fld("stick.scopeStack", "scopes", p)[i])
+
+//@ func stick.(*state).walkIncludeNode
+//@   ensures ctx: err == nil ==> ctx != nil && fresh(ctx)
+//@   requires xinv(s)
+//@   ensures inv: xinv(s)
+//@   ensures out: err == nil ==> s.out == old(s.out)
+//@   ensures scope: s.scope == old(s.scope) && len(s.scope.scopes) == old(len(s.scope.scopes)) && (forall i trig :: 0 <= i && i < len(s.scope.scopes) ==> s.scope.scopes[i] == old(s.scope.scopes[i]))
+//@   ensures name: s.name == old(s.name) && s.current == old(s.current) && s.env == old(s.env)
+//@   ensures blocks: len(s.blocks) >= old(len(s.blocks))
+//@   ensures others: forall p trig :: allocated(p) && p != old(s.scope) ==> fld("stick.scopeStack", "scopes", p) == old(fld("stick.scopeStack", "scopes", p))
+// A11 (trusted, not proved): states are separate — executing on one state does not modify the list of
+// scope maps of another state's scope stack (ownership of backing arrays is not modelled).
+//@   trusts sep: forall p, i :: allocated(p) && p != old(s.scope) && 0 <= i && i < old(len(fld("stick.scopeStack", "scopes", p))) ==> fld("stick.scopeStack", "scopes", p)[i] == old(fld("stick.scopeStack", "scopes", p)[i])
+//@   loop 1 invariant frame: xinv(s) && s.scope == old(s.scope) && len(s.scope.scopes) == old(len(s.scope.scopes)) && (forall i trig :: 0 <= i && i < len(s.scope.scopes) ==> s.scope.scopes[i] == old(s.scope.scopes[i])) && s.name == old(s.name) && s.current == old(s.current) && s.env == old(s.env) && len(s.blocks) >= old(len(s.blocks)) && (forall p trig :: allocated(p) && p != old(s.scope) ==> fld("stick.scopeStack", "scopes", p) == old(fld("stick.scopeStack", "scopes", p))) && s.out == old(s.out)
+//@   loop 2 invariant frame: xinv(s) && s.scope == old(s.scope) && len(s.scope.scopes) == old(len(s.scope.scopes)) && (forall i trig :: 0 <= i && i < len(s.scope.scopes) ==> s.scope.scopes[i] == old(s.scope.scopes[i])) && s.name == old(s.name) && s.current == old(s.current) && s.env == old(s.env) && len(s.blocks) >= old(len(s.blocks)) && (forall p trig :: allocated(p) && p != old(s.scope) ==> fld("stick.scopeStack", "scopes", p) == old(fld("stick.scopeStack", "scopes", p))) && s.out == old(s.out)
+//@   loop 3 invariant frame: xinv(s) && s.scope == old(s.scope) && len(s.scope.scopes) == old(len(s.scope.scopes)) && (forall i trig :: 0 <= i && i < len(s.scope.scopes) ==> s.scope.scopes[i] == old(s.scope.scopes[i])) && s.name == old(s.name) && s.current == old(s.current) && s.env == old(s.env) && len(s.blocks) >= old(len(s.blocks)) && (forall p trig :: allocated(p) && p != old(s.scope) ==> fld("stick.scopeStack", "scopes", p) == old(fld("stick.scopeStack", "scopes", p))) && s.out == old(s.out)
+
+//@ func stick.(*state).walkUseNode
+//@   requires xinv(s)
+//@   ensures inv: xinv(s)
+//@   ensures out: err == nil ==> s.out == old(s.out)
+//@   ensures scope: s.scope == old(s.scope) && len(s.scope.scopes) == old(len(s.scope.scopes)) && (forall i trig :: 0 <= i && i < len(s.scope.scopes) ==> s.scope.scopes[i] == old(s.scope.scopes[i]))
+//@   ensures name: s.name == old(s.name) && s.current == old(s.current) && s.env == old(s.env)
+//@   ensures blocks: len(s.blocks) >= old(len(s.blocks))
+//@   ensures others: forall p trig :: allocated(p) && p != old(s.scope) ==> fld("stick.scopeStack", "scopes", p) == old(fld("stick.scopeStack", "scopes", p))
+// A11 (trusted, not proved): states are separate — executing on one state does not modify the list of
+// scope maps of another state's scope stack (ownership of backing arrays is not modelled).
+//@   trusts sep: forall p, i :: allocated(p) && p != old(s.scope) && 0 <= i && i < old(len(fld("stick.scopeStack", "scopes", p))) ==> fld("stick.scopeStack", "scopes", p)[i] == old(fld("stick.scopeStack", "scopes", p)[i])
+//@   loop 1 invariant frame: xinv(s) && s.scope == old(s.scope) && len(s.scope.scopes) == old(len(s.scope.scopes)) && (forall i trig :: 0 <= i && i < len(s.scope.scopes) ==> s.scope.scopes[i] == old(s.scope.scopes[i])) && s.name == old(s.name) && s.current == old(s.current) && s.env == old(s.env) && len(s.blocks) >= old(len(s.blocks)) && (forall p trig :: allocated(p) && p != old(s.scope) ==> fld("stick.scopeStack", "scopes", p) == old(fld("stick.scopeStack", "scopes", p))) && s.out == old(s.out)
+
+//@ func stick.(*state).walkSetNode
+//@   requires xinv(s)
+//@   ensures inv: xinv(s)
+//@   ensures out: err == nil ==> s.out == old(s.out)
+//@   ensures scope: s.scope == old(s.scope) && len(s.scope.scopes) == old(len(s.scope.scopes)) && (forall i trig :: 0 <= i && i < len(s.scope.scopes) ==> s.scope.scopes[i] == old(s.scope.scopes[i]))
+//@   ensures name: s.name == old(s.name) && s.current == old(s.current) && s.env == old(s.env)
+//@   ensures blocks: len(s.blocks) >= old(len(s.blocks))
+//@   ensures others: forall p trig :: allocated(p) && p != old(s.scope) ==> fld("stick.scopeStack", "scopes", p) == old(fld("stick.scopeStack", "scopes", p))
+// A11 (trusted, not proved): states are separate — executing on one state does not modify the list of
+// scope maps of another state's scope stack (ownership of backing arrays is not modelled).
+//@   trusts sep: forall p, i :: allocated(p) && p != old(s.scope) && 0 <= i && i < old(len(fld("stick.scopeStack", "scopes", p))) ==> fld("stick.scopeStack", "scopes", p)[i] == old(fld("stick.scopeStack", "scopes", p)[i])
+
+//@ func stick.(*state).walkDoNode
+//@   requires xinv(s)
+//@   ensures inv: xinv(s)
+//@   ensures out: err == nil ==> s.out == old(s.out)
+//@   ensures scope: s.scope == old(s.scope) && len(s.scope.scopes) == old(len(s.scope.scopes)) && (forall i trig :: 0 <= i && i < len(s.scope.scopes) ==> s.scope.scopes[i] == old(s.scope.scopes[i]))
+//@   ensures name: s.name == old(s.name) && s.current == old(s.current) && s.env == old(s.env)
+//@   ensures blocks: len(s.blocks) >= old(len(s.blocks))
+//@   ensures others: forall p trig :: allocated(p) && p != old(s.scope) ==> fld("stick.scopeStack", "scopes", p) == old(fld("stick.scopeStack", "scopes", p))
+// A11 (trusted, not proved): states are separate — executing on one state does not modify the list of
+// scope maps of another state's scope stack (ownership of backing arrays is not modelled).
+//@   trusts sep: forall p, i :: allocated(p) && p != old(s.scope) && 0 <= i && i < old(len(fld("stick.scopeStack", "scopes", p))) ==> fld("stick.scopeStack", "scopes", p)[i] == old(fld("stick.scopeStack", "scopes", p)[i])
+
+//@ func stick.(*state).walkFilterNode
+//@   reveal cbOK
+//@   requires xinv(s)
+//@   ensures inv: xinv(s)
+//@   ensures out: err == nil ==> s.out == old(s.out)
+//@   ensures scope: s.scope == old(s.scope) && len(s.scope.scopes) == old(len(s.scope.scopes)) && (forall i trig :: 0 <= i && i < len(s.scope.scopes) ==> s.scope.scopes[i] == old(s.scope.scopes[i]))
+//@   ensures name: s.name == old(s.name) && s.current == old(s.current) && s.env == old(s.env)
+//@   ensures blocks: len(s.blocks) >= old(len(s.blocks))
+//@   ensures others: forall p trig :: allocated(p) && p != old(s.scope) ==> fld("stick.scopeStack", "scopes", p) == old(fld("stick.scopeStack", "scopes", p))
+// A11 (trusted, not proved): states are separate — executing on one state does not modify the list of
+// scope maps of another state's scope stack (ownership of backing arrays is not modelled).
+//@   trusts sep: forall p, i :: allocated(p) && p != old(s.scope) && 0 <= i && i < old(len(fld("stick.scopeStack", "scopes", p))) ==> fld("stick.scopeStack", "scopes", p)[i] == old(fld("stick.scopeStack", "scopes", p)[i])
+//@   loop 1 invariant frame: xinv(s) && s.scope == old(s.scope) && len(s.scope.scopes) == old(len(s.scope.scopes)) && (forall i trig :: 0 <= i && i < len(s.scope.scopes) ==> s.scope.scopes[i] == old(s.scope.scopes[i])) && s.name == old(s.name) && s.current == old(s.current) && s.env == old(s.env) && len(s.blocks) >= old(len(s.blocks)) && (forall p trig :: allocated(p) && p != old(s.scope) ==> fld("stick.scopeStack", "scopes", p) == old(fld("stick.scopeStack", "scopes", p)))
+
+//@ func stick.(*state).walkImportNode
+//@   requires xinv(s)
+//@   ensures inv: xinv(s)
+//@   ensures out: err == nil ==> s.out == old(s.out)
+//@   ensures scope: s.scope == old(s.scope) && len(s.scope.scopes) == old(len(s.scope.scopes)) && (forall i trig :: 0 <= i && i < len(s.scope.scopes) ==> s.scope.scopes[i] == old(s.scope.scopes[i]))
+//@   ensures name: s.name == old(s.name) && s.current == old(s.current) && s.env == old(s.env)
+//@   ensures blocks: len(s.blocks) >= old(len(s.blocks))
+//@   ensures others: forall p trig :: allocated(p) && p != old(s.scope) ==> fld("stick.scopeStack", "scopes", p) == old(fld("stick.scopeStack", "scopes", p))
+// A11 (trusted, not proved): states are separate — executing on one state does not modify the list of
+// scope maps of another state's scope stack (ownership of backing arrays is not modelled).
+//@   trusts sep: forall p, i :: allocated(p) && p != old(s.scope) && 0 <= i && i < old(len(fld("stick.scopeStack", "scopes", p))) ==> fld("stick.scopeStack", "scopes", p)[i] == old(fld("stick.scopeStack", "scopes", p)[i])
+//@   loop 1 invariant frame: xinv(s) && s.scope == old(s.scope) && len(s.scope.scopes) == old(len(s.scope.scopes)) && (forall i trig :: 0 <= i && i < len(s.scope.scopes) ==> s.scope.scopes[i] == old(s.scope.scopes[i])) && s.name == old(s.name) && s.current == old(s.current) && s.env == old(s.env) && len(s.blocks) >= old(len(s.blocks)) && (forall p trig :: allocated(p) && p != old(s.scope) ==> fld("stick.scopeStack", "scopes", p) == old(fld("stick.scopeStack", "scopes", p))) && s.out == old(s.out)
+
+//@ func stick.(*state).walkFromNode
+//@   requires xinv(s)
+//@   ensures inv: xinv(s)
+//@   ensures out: err == nil ==> s.out == old(s.out)
+//@   ensures scope: s.scope == old(s.scope) && len(s.scope.scopes) == old(len(s.scope.scopes)) && (forall i trig :: 0 <= i && i < len(s.scope.scopes) ==> s.scope.scopes[i] == old(s.scope.scopes[i]))
+//@   ensures name: s.name == old(s.name) && s.current == old(s.current) && s.env == old(s.env)
+//@   ensures blocks: len(s.blocks) >= old(len(s.blocks))
+//@   ensures others: forall p trig :: allocated(p) && p != old(s.scope) ==> fld("stick.scopeStack", "scopes", p) == old(fld("stick.scopeStack", "scopes", p))
+// A11 (trusted, not proved): states are separate — executing on one state does not modify the list of
+// scope maps of another state's scope stack (ownership of backing arrays is not modelled).
+//@   trusts sep: forall p, i :: allocated(p) && p != old(s.scope) && 0 <= i && i < old(len(fld("stick.scopeStack", "scopes", p))) ==> fld("stick.scopeStack", "scopes", p)[i] == old(fld("stick.scopeStack", "scopes", p)[i])
+//@   loop 1 invariant frame: xinv(s) && s.scope == old(s.scope) && len(s.scope.scopes) == old(len(s.scope.scopes)) && (forall i trig :: 0 <= i && i < len(s.scope.scopes) ==> s.scope.scopes[i] == old(s.scope.scopes[i])) && s.name == old(s.name) && s.current == old(s.current) && s.env == old(s.env) && len(s.blocks) >= old(len(s.blocks)) && (forall p trig :: allocated(p) && p != old(s.scope) ==> fld("stick.scopeStack", "scopes", p) == old(fld("stick.scopeStack", "scopes", p))) && s.out == old(s.out)
+
+//@ func stick.(*state).evalExpr
+//@   reveal cbOK
+//@   requires xinv(s)
+//@   ensures inv: xinv(s)
+//@   ensures out: err == nil ==> s.out == old(s.out)
+//@   ensures scope: s.scope == old(s.scope) && len(s.scope.scopes) == old(len(s.scope.scopes)) && (forall i trig :: 0 <= i && i < len(s.scope.scopes) ==> s.scope.scopes[i] == old(s.scope.scopes[i]))
+//@   ensures name: s.name == old(s.name) && s.current == old(s.current) && s.env == old(s.env)
+//@   ensures blocks: len(s.blocks) >= old(len(s.blocks))
+//@   ensures others: forall p trig :: allocated(p) && p != old(s.scope) ==> fld("stick.scopeStack", "scopes", p) == old(fld("stick.scopeStack", "scopes", p))
+// A11 (trusted, not proved): states are separate — executing on one state does not modify the list of
+// scope maps of another state's scope stack (ownership of backing arrays is not modelled).
+//@   trusts sep: forall p, i :: allocated(p) && p != old(s.scope) && 0 <= i && i < old(len(fld("stick.scopeStack", "scopes", p))) ==> fld("stick.scopeStack", "scopes", p)[i] == old(fld("stick.scopeStack", "scopes", p)[i])
+//@   loop 1 invariant frame: xinv(s) && s.scope == old(s.scope) && len(s.scope.scopes) == old(len(s.scope.scopes)) && (forall i trig :: 0 <= i && i < len(s.scope.scopes) ==> s.scope.scopes[i] == old(s.scope.scopes[i])) && s.name == old(s.name) && s.current == old(s.current) && s.env == old(s.env) && len(s.blocks) >= old(len(s.blocks)) && (forall p trig :: allocated(p) && p != old(s.scope) ==> fld("stick.scopeStack", "scopes", p) == old(fld("stick.scopeStack", "scopes", p))) && s.out == old(s.out)
+//@   loop 2 invariant frame: xinv(s) && s.scope == old(s.scope) && len(s.scope.scopes) == old(len(s.scope.scopes)) && (forall i trig :: 0 <= i && i < len(s.scope.scopes) ==> s.scope.scopes[i] == old(s.scope.scopes[i])) && s.name == old(s.name) && s.current == old(s.current) && s.env == old(s.env) && len(s.blocks) >= old(len(s.blocks)) && (forall p trig :: allocated(p) && p != old(s.scope) ==> fld("stick.scopeStack", "scopes", p) == old(fld("stick.scopeStack", "scopes", p))) && s.out == old(s.out)
+//@   loop 3 invariant frame: xinv(s) && s.scope == old(s.scope) && len(s.scope.scopes) == old(len(s.scope.scopes)) && (forall i trig :: 0 <= i && i < len(s.scope.scopes) ==> s.scope.scopes[i] == old(s.scope.scopes[i])) && s.name == old(s.name) && s.current == old(s.current) && s.env == old(s.env) && len(s.blocks) >= old(len(s.blocks)) && (forall p trig :: allocated(p) && p != old(s.scope) ==> fld("stick.scopeStack", "scopes", p) == old(fld("stick.scopeStack", "scopes", p))) && s.out == old(s.out)
+//@   loop 4 invariant frame: xinv(s) && s.scope == old(s.scope) && len(s.scope.scopes) == old(len(s.scope.scopes)) && (forall i trig :: 0 <= i && i < len(s.scope.scopes) ==> s.scope.scopes[i] == old(s.scope.scopes[i])) && s.name == old(s.name) && s.current == old(s.current) && s.env == old(s.env) && len(s.blocks) >= old(len(s.blocks)) && (forall p trig :: allocated(p) && p != old(s.scope) ==> fld("stick.scopeStack", "scopes", p) == old(fld("stick.scopeStack", "scopes", p))) && s.out == old(s.out)
+//@   loop 5 invariant frame: xinv(s) && s.scope == old(s.scope) && len(s.scope.scopes) == old(len(s.scope.scopes)) && (forall i trig :: 0 <= i && i < len(s.scope.scopes) ==> s.scope.scopes[i] == old(s.scope.scopes[i])) && s.name == old(s.name) && s.current == old(s.current) && s.env == old(s.env) && len(s.blocks) >= old(len(s.blocks)) && (forall p trig :: allocated(p) && p != old(s.scope) ==> fld("stick.scopeStack", "scopes", p) == old(fld("stick.scopeStack", "scopes", p))) && s.out == old(s.out)
+
+//@ func stick.(*state).evalFunction
+//@   reveal cbOK
+//@   requires xinv(s)
+//@   ensures inv: xinv(s)
+//@   ensures out: err == nil ==> s.out == old(s.out)
+//@   ensures scope: s.scope == old(s.scope) && len(s.scope.scopes) == old(len(s.scope.scopes)) && (forall i trig :: 0 <= i && i < len(s.scope.scopes) ==> s.scope.scopes[i] == old(s.scope.scopes[i]))
+//@   ensures name: s.name == old(s.name) && s.current == old(s.current) && s.env == old(s.env)
+//@   ensures blocks: len(s.blocks) >= old(len(s.blocks))
+//@   ensures others: forall p trig :: allocated(p) && p != old(s.scope) ==> fld("stick.scopeStack", "scopes", p) == old(fld("stick.scopeStack", "scopes", p))
+// A11 (trusted, not proved): states are separate — executing on one state does not modify the list of
+// scope maps of another state's scope stack (ownership of backing arrays is not modelled).
+//@   trusts sep: forall p, i :: allocated(p) && p != old(s.scope) && 0 <= i && i < old(len(fld("stick.scopeStack", "scopes", p))) ==> fld("stick.scopeStack", "scopes", p)[i] == old(fld("stick.scopeStack", "scopes", p)[i])
+//@   loop 1 invariant frame: xinv(s) && s.scope == old(s.scope) && len(s.scope.scopes) == old(len(s.scope.scopes)) && (forall i trig :: 0 <= i && i < len(s.scope.scopes) ==> s.scope.scopes[i] == old(s.scope.scopes[i])) && s.name == old(s.name) && s.current == old(s.current) && s.env == old(s.env) && len(s.blocks) >= old(len(s.blocks)) && (forall p trig :: allocated(p) && p != old(s.scope) ==> fld("stick.scopeStack", "scopes", p) == old(fld("stick.scopeStack", "scopes", p))) && s.out == old(s.out)
+//@   loop 2 invariant frame: xinv(s) && s.scope == old(s.scope) && len(s.scope.scopes) == old(len(s.scope.scopes)) && (forall i trig :: 0 <= i && i < len(s.scope.scopes) ==> s.scope.scopes[i] == old(s.scope.scopes[i])) && s.name == old(s.name) && s.current == old(s.current) && s.env == old(s.env) && len(s.blocks) >= old(len(s.blocks)) && (forall p trig :: allocated(p) && p != old(s.scope) ==> fld("stick.scopeStack", "scopes", p) == old(fld("stick.scopeStack", "scopes", p))) && s.out == old(s.out)
+//@   loop 3 invariant frame: xinv(s) && s.scope == old(s.scope) && len(s.scope.scopes) == old(len(s.scope.scopes)) && (forall i trig :: 0 <= i && i < len(s.scope.scopes) ==> s.scope.scopes[i] == old(s.scope.scopes[i])) && s.name == old(s.name) && s.current == old(s.current) && s.env == old(s.env) && len(s.blocks) >= old(len(s.blocks)) && (forall p trig :: allocated(p) && p != old(s.scope) ==> fld("stick.scopeStack", "scopes", p) == old(fld("stick.scopeStack", "scopes", p))) && s.out == old(s.out)
+
+//@ func stick.(*state).evalFilter
+//@   reveal cbOK
+//@   requires xinv(s)
+//@   ensures inv: xinv(s)
+//@   ensures out: err == nil ==> s.out == old(s.out)
+//@   ensures scope: s.scope == old(s.scope) && len(s.scope.scopes) == old(len(s.scope.scopes)) && (forall i trig :: 0 <= i && i < len(s.scope.scopes) ==> s.scope.scopes[i] == old(s.scope.scopes[i]))
+//@   ensures name: s.name == old(s.name) && s.current == old(s.current) && s.env == old(s.env)
+//@   ensures blocks: len(s.blocks) >= old(len(s.blocks))
+//@   ensures others: forall p trig :: allocated(p) && p != old(s.scope) ==> fld("stick.scopeStack", "scopes", p) == old(fld("stick.scopeStack", "scopes", p))
+// A11 (trusted, not proved): states are separate — executing on one state does not modify the list of
+// scope maps of another state's scope stack (ownership of backing arrays is not modelled).
+//@   trusts sep: forall p, i :: allocated(p) && p != old(s.scope) && 0 <= i && i < old(len(fld("stick.scopeStack", "scopes", p))) ==> fld("stick.scopeStack", "scopes", p)[i] == old(fld("stick.scopeStack", "scopes", p)[i])
+//@   loop 1 invariant frame: xinv(s) && s.scope == old(s.scope) && len(s.scope.scopes) == old(len(s.scope.scopes)) && (forall i trig :: 0 <= i && i < len(s.scope.scopes) ==> s.scope.scopes[i] == old(s.scope.scopes[i])) && s.name == old(s.name) && s.current == old(s.current) && s.env == old(s.env) && len(s.blocks) >= old(len(s.blocks)) && (forall p trig :: allocated(p) && p != old(s.scope) ==> fld("stick.scopeStack", "scopes", p) == old(fld("stick.scopeStack", "scopes", p))) && s.out == old(s.out)
+
+//@ func stick.(*state).callMacro
+//@   requires def: macro.MacroNode != nil
+//@   requires xinv(s)
+//@   ensures inv: xinv(s)
+//@   ensures out: err == nil ==> s.out == old(s.out)
+//@   ensures scope: s.scope == old(s.scope) && len(s.scope.scopes) == old(len(s.scope.scopes)) && (forall i trig :: 0 <= i && i < len(s.scope.scopes) ==> s.scope.scopes[i] == old(s.scope.scopes[i]))
+//@   ensures name: s.name == old(s.name) && s.current == old(s.current) && s.env == old(s.env)
+//@   ensures blocks: len(s.blocks) >= old(len(s.blocks))
+//@   ensures others: forall p trig :: allocated(p) && p != old(s.scope) ==> fld("stick.scopeStack", "scopes", p) == old(fld("stick.scopeStack", "scopes", p))
+// A11 (trusted, not proved): states are separate — executing on one state does not modify the list of
+// scope maps of another state's scope stack (ownership of backing arrays is not modelled).
+//@   trusts sep: forall p, i :: allocated(p) && p != old(s.scope) && 0 <= i && i < old(len(fld("stick.scopeStack", "scopes", p))) ==> fld("stick.scopeStack", "scopes", p)[i] == old(fld("stick.scopeStack", "scopes", p)[i])
+//@   loop 1 invariant frame: xinv(s) && s.scope == old(s.scope) && s.name == old(s.name) && s.current == old(s.current) && s.env == old(s.env) && len(s.blocks) >= old(len(s.blocks)) && (forall p trig :: allocated(p) && p != old(s.scope) ==> fld("stick.scopeStack", "scopes", p) == old(fld("stick.scopeStack", "scopes", p))) && s.out == old(s.out) && len(s.scope.scopes) == old(len(s.scope.scopes)) + 1 && (forall i trig :: 0 <= i && i < old(len(s.scope.scopes)) ==> s.scope.scopes[i] == old(s.scope.scopes[i])) && rangeindex >= -1
+
+//@ func stick.(*state).getBlock
+//@   pure
+//@   loop 1 invariant true
+//@ func stick.(*state).getParentBlock
+//@   pure
+//@   loop 1 invariant true
+//@ func stick.newState
+//@   ensures fresh: result != nil && fresh(result) && result.out == out && result.env == env && result.name == name && result.scope != nil && result.macros != nil && result.localMacros != nil && result.meta != nil && result.current == nil
+//@   ensures scope: len(result.scope.scopes) == 1 && result.scope.scopes[0] == ctx && len(result.blocks) == 0 && fresh(result.scope)
+//@ func stick.(*scopeStack).All
+//@   ensures result != nil && fresh(result)
+//@   loop 1 invariant res != nil
+//@   loop 2 invariant res != nil
+//@ func stick.(*state).self
+//@ func stick.execute
+//@   requires env != nil && env.Loader != nil && out != nil && cbOK(env)
+// an included template runs in a state of its own: no scope stack that existed before is touched
+//@   ensures others: forall p trig :: allocated(p) ==> fld("stick.scopeStack", "scopes", p) == old(fld("stick.scopeStack", "scopes", p))
+//@   trusts sep: forall p, i :: allocated(p) && 0 <= i && i < old(len(fld("stick.scopeStack", "scopes", p))) ==> fld("stick.scopeStack", "scopes", p)[i] == old(fld("stick.scopeStack", "scopes", p)[i])
+//@ func stick.(*Env).load
+//@   requires env.Loader != nil
+//@   ensures ok: err == nil ==> r0 != nil && r0.root != nil && len(r0.blocks) >= 1 && r0.macros != nil
